@@ -58,7 +58,7 @@ func init() {
 // worker side
 // ---------------------------------------------------------------------------------------
 
-const c08MemLimit = 1536 << 20 // live heap above this: the watchdog ends the worker (exit 99)
+const c08MemLimit = 1536 << 20        // live heap above this: the watchdog ends the worker (exit 99)
 const c08Deadline = 300 * time.Second // wall clock; generous: the machine may be loaded
 
 var c08BusySince atomic.Int64
@@ -480,6 +480,7 @@ func genC08(c *Ctx) {
 			}
 		}
 	}
+	var functional []func()
 	maxUs, maxTag := int64(0), ""
 	maxCpu, maxCpuTag := int64(0), ""
 	for i, cs := range cases {
@@ -501,7 +502,10 @@ func genC08(c *Ctx) {
 		}
 		modelled := c08Modelled[cs.comp] && cs.recipe == nil && n <= c08ModelMax && !(cs.comp == "jks" && jksReachesSecretKey(cs.data))
 		if modelled && r.status == 0 {
-			c.Emit(cs.comp+":"+cs.tag, SL{SB(cs.data), SB(r.aux)}, rawSx(r.out))
+			// emitted after all alloc cases: whether a worker survives a multi-gigabyte request is a
+			// race with the watchdog, and the ids of the alloc cases must not depend on it (replay)
+			k, in, out := cs.comp+":"+cs.tag, SL{SB(cs.data), SB(r.aux)}, rawSx(r.out)
+			functional = append(functional, func() { c.Emit(k, in, out) })
 		}
 		comp := cs.comp
 		if !modelled && c08Modelled[comp] {
@@ -513,6 +517,9 @@ func genC08(c *Ctx) {
 	fmt.Fprintf(os.Stderr, "C08 isolated cases=%d; max wall per case %.3fs (%s); max thread CPU per case %.3fs (%s); limit 5 s CPU\n",
 		len(cases), float64(maxUs)/1e6, maxTag, float64(maxCpu)/1e6, maxCpuTag)
 	c08Streams(c)
+	for _, f := range functional {
+		f()
+	}
 }
 
 // ---------------------------------------------------------------------------------------
@@ -820,19 +827,28 @@ func pgpFramingFields(d []byte) []lfield {
 	return fs
 }
 
+// c08FixedKey is a complete OpenPGP public key (1024-bit RSA primary key, one user ID with its
+// self-signature, one subkey with its binding signature) written once by openpgp.NewEntity /
+// Serialize.  It is embedded because rsa.GenerateKey deliberately consumes a random number of
+// bytes from its source, which would make the seeded case stream irreproducible.
+const c08FixedKey = "" +
+	"xo0Ear3UHwEEAPAg7PDMpgIl2aVpX9sMzfaRR3waN0hYuy2n5IH/GNncB2T8H1b7BMDnN3w3m6DmDEYDE3rvZCMfkMq0FFdu1GLi" +
+	"OT7ZVb/s08KVHSdxqEOHxxGrcYzEp2iO0HpFCOAkAxLl5qUbpRwogUjXLH4pI66I5HMwxCCqZR8gbHBwZ9YVABEBAAHNIlRlc3Qg" +
+	"VXNlciAoYzA4KSA8dGVzdEBleGFtcGxlLm9yZz7CogQTAQgAFgUCar3UHwkQHvnnpSAN1E0CGwMCGQEAACv+BABUgHc6eMLJC4bJ" +
+	"jyuHdqxoObEn3WVKEH0F/svXsi8lCS1QCrbwse268SyuQIVJyxNBitWNo2GsBSp4IofobD5kEHqfU4sJ15LJ/W11Ig88Pi8XpEUY" +
+	"8vGWa7VKk7SIbI98AM5ZV92JHlX0vu5lQNriKTKmlY30qyM5fKOOCHBifM6NBGq91B8BBACZp8cSqgCSUOSQJqFT5K5NO2y3+Xxr" +
+	"TbcbjF84s79CC/XU8WZ13MsKFW/Vf9ZPCwS+7QduZV3Fmrpye8kF5GqG+j0kHAtxguk5JSkdF/JO4K0M2xSAr1BsJh2yt0Qi+KGL" +
+	"DmJNlv7FVyT0eK+guefah5gKBiRD73sCSm3n0jyULwARAQABwp8EGAEIABMFAmq91B8JEB7556UgDdRNAhsMAACUewQAUHa3eM8o" +
+	"Zn9aRqwp7IjLdEjVB27UyL8ectdEIk3GyCnbu8NSEd/yiiiGh/iN1wkfpyad+1OF7E/A505RjwqpBdG1nNtac9p43PyAgfn5fZYQ" +
+	"MZJSbN6ww4XyqCbGASCncZHAMJqRDGTV22aQBM2/IxOy21KhX2ANVTKh8bD294c="
+
 func rawPGPKey(r *Rng) []byte {
-	cfg := &packet.Config{RSABits: 1024, Rand: r}
-	e, err := openpgp.NewEntity("Test User", "c08", "test@example.org", cfg)
+	b, err := base64.StdEncoding.DecodeString(c08FixedKey)
 	if err != nil {
-		fmt.Fprintln(os.Stderr, "NewEntity:", err)
+		fmt.Fprintln(os.Stderr, "c08FixedKey:", err)
 		os.Exit(1)
 	}
-	var raw bytes.Buffer
-	if err := e.Serialize(&raw); err != nil {
-		fmt.Fprintln(os.Stderr, "Serialize:", err)
-		os.Exit(1)
-	}
-	return raw.Bytes()
+	return b
 }
 
 func armorPGP(raw []byte) []byte {
@@ -917,10 +933,7 @@ func c08GenPGP(c *Ctx, add func(comp, tag, name string, data []byte)) {
 		return append(out, 0)
 	}())
 	// a real key: framing lengths mutated, through the opaque reader, the typed reader and Inspect
-	nk := 2
-	if c.Thorough() {
-		nk = 10
-	}
+	nk := 1
 	for k := 0; k < nk; k++ {
 		raw := rawPGPKey(c.R)
 		add("pgpopaque", "key-valid", "", raw)
